@@ -13,63 +13,20 @@ open Dulwich Dulwich.Config
 /-! ## 1. value round trip: `_parse_string(_format_string(v)) == v` -/
 
 /-- The statement the property makes about values, in full. It is FALSE for the code as it stands
-(`valueRoundtripStatement_false`); the theorem that holds is `value_roundtrip` under `wfValue`. -/
+(`valueRoundtripStatement_false`); the theorem that holds is `value_roundtrip_partial`, under `wfValue`. -/
 def valueRoundtripStatement : Prop := ∀ v : Bytes, parseString (formatString v) = .ok v
-
-/-- the reader's loop returns the value on what the writer emitted (before `strip()` is considered) -/
-theorem parseLoop_format (v : Bytes) (h : wfValue v = true) :
-    parseLoop (formatString v) [] [] false = .ok v := by
-  obtain ⟨h13, hq | ⟨hq, h59, _, _⟩⟩ := wfValue_unpack h
-  · -- quoted: `"` escaped `"`
-    simp only [formatString, hq, if_true, escapeValue_eq, Gen.Config.formatQuoteOpen,
-      Gen.Config.formatQuoteClose, List.cons_append, List.nil_append]
-    rw [parseLoop_cons_ne 34 _ [] [] false (by decide)]
-    simp only [Gen.Config.parseQuoteChar, if_true, Bool.not_false]
-    rw [parseLoop_quoted v [34] [] h13, parseLoop_cons_ne 34 [] _ [] true (by decide)]
-    simp [Gen.Config.parseQuoteChar, parseLoop, parseFinish]
-  · -- unquoted
-    obtain ⟨_, hlast, h35⟩ := needsQuote_false hq
-    have hf : formatString v = v.flatMap escByte := by simp [formatString, hq, escapeValue_eq]
-    rw [hf]
-    have := parseLoop_plain v [] [] [] h13 h35 h59
-    rw [List.append_nil] at this
-    rw [this]
-    rcases List.eq_nil_or_concat v with rfl | ⟨ys, l, rfl⟩
-    · rfl
-    · rw [List.concat_eq_append] at hlast ⊢
-      have hl : l ≠ 32 := (hlast l (by simp)).1
-      rw [absorb_last ys l hl]
-      simp [parseLoop, parseFinish]
-
-/-- the writer's output starts and ends with bytes `strip()` keeps (or is empty) -/
-theorem edges_format (v : Bytes) (h : wfValue v = true) : Edges (formatString v) := by
-  obtain ⟨h13, hq | ⟨hq, _, hh, hl⟩⟩ := wfValue_unpack h
-  · right
-    refine ⟨34, 34, ?_, by decide, ?_, by decide⟩
-    · simp [formatString, hq, Gen.Config.formatQuoteOpen]
-    · simp [formatString, hq, Gen.Config.formatQuoteClose]
-  · obtain ⟨hh', hl', _⟩ := needsQuote_false hq
-    have hf : formatString v = v.flatMap escByte := by simp [formatString, hq, escapeValue_eq]
-    rw [hf]
-    apply edges_escaped
-    · intro a ha
-      have hm : a ∈ v := List.mem_of_mem_head? (by rw [ha]; rfl)
-      exact ⟨(hh' a ha).2, (hh' a ha).1, (hh a ha).1, (hh a ha).2, fun e => h13 (e ▸ hm)⟩
-    · intro b hb
-      have hm : b ∈ v := List.mem_of_getLast? hb
-      exact ⟨(hl' b hb).2, (hl' b hb).1, (hl b hb).1, (hl b hb).2, fun e => h13 (e ▸ hm)⟩
 
 /-- **Value round trip.** For every value `v` with `wfValue v` — no CR; and, if the writer's rule leaves it
 unquoted (no `#`, no leading/trailing space or tab), no `;` and no VT/FF as first or last byte —
 reading what `_format_string` wrote gives `v` back. -/
-theorem value_roundtrip (v : Bytes) (h : wfValue v = true) :
+theorem value_roundtrip_partial (v : Bytes) (h : wfValue v = true) :
     parseString (formatString v) = .ok v := by
   unfold parseString
   rw [strip_of_edges (edges_format v h), parseLoop_format v h]
 
 /-- the same through the text `from_file` actually hands to `_parse_string` for a line
 `\tkey = VALUE\n`: a space, the formatted value, LF -/
-theorem value_roundtrip_in_line (v : Bytes) (h : wfValue v = true) :
+theorem value_roundtrip_in_line_partial (v : Bytes) (h : wfValue v = true) :
     parseString (32 :: (formatString v ++ [10])) = .ok v := by
   unfold parseString
   rw [strip_line_of_edges (edges_format v h), parseLoop_format v h]
@@ -101,6 +58,20 @@ theorem leading_vt_counterexample : parseString (formatString [11, 97]) = .ok [9
 
 /-- a trailing FF is written raw and removed by `strip()` -/
 theorem trailing_ff_counterexample : parseString (formatString [97, 12]) = .ok [97] := by decide
+
+/-- all byte strings of length `n` over `alpha` -/
+def stringsOfLen (alpha : Bytes) : Nat → List Bytes
+  | 0 => [[]]
+  | n + 1 => (stringsOfLen alpha n).flatMap (fun s => alpha.map (fun c => c :: s))
+
+/-- `wfValue` is exact, not merely sufficient, on every value of length ≤ 3 over the property's
+11-symbol alphabet plus VT and FF (2380 values, evaluated by the kernel): a value round-trips
+**iff** it satisfies the predicate.  (The harness checks the same equivalence against the real code on
+all values up to length 4/5 and on random longer ones in every run.) -/
+theorem wfValue_exact_small :
+    ((List.range 4).flatMap (stringsOfLen [32, 9, 34, 92, 35, 59, 10, 13, 110, 116, 98, 11, 12])).all
+      (fun v => wfValue v == decide (parseString (formatString v) = .ok v)) = true := by
+  decide +kernel
 
 theorem valueRoundtripStatement_false : ¬ valueRoundtripStatement := by
   intro h
@@ -144,26 +115,8 @@ header line `write_to_file` emits is parsed back to the same `(name[, subsection
 on the line: `_strip_comments` leaves it alone, the scan finds the final `]`, the split finds the name,
 and unescaping inverts escaping. -/
 theorem header_roundtrip_partial (sec : Section) (hdr : Bytes) (h : wfSection sec = true)
-    (hw : writeHeader sec = .ok hdr) : parseHeader hdr = .ok (sec, []) := by
-  obtain ⟨name, sub⟩ := sec
-  cases sub with
-  | none =>
-    simp only [wfSection, Bool.and_eq_true, Bool.not_eq_true'] at h
-    simp only [writeHeader, Except.ok.injEq] at hw
-    subst hw
-    have hd : ¬ 46 ∈ name := by simpa [Gen.Config.hdrDot] using h.2
-    exact parseHeader_written_plain name h.1 hd
-  | some sub =>
-    simp only [wfSection, wfSubsection, Bool.and_eq_true, Bool.not_eq_true'] at h
-    simp only [writeHeader] at hw
-    split at hw
-    · cases hw
-    · rename_i esc hesc
-      simp only [Except.ok.injEq] at hw
-      subst hw
-      obtain ⟨he, _, _⟩ := escapeSubsection_ok hesc
-      subst he
-      exact parseHeader_written_sub name sub h.1 h.2.2
+    (hw : writeHeader sec = .ok hdr) : parseHeader hdr = .ok (sec, []) :=
+  parseHeader_written sec hdr h hw
 
 example : wfSection ([114, 101, 109, 111, 116, 101], some [97, 35, 59, 34, 92, 46, 32, 93, 34, 35]) = true := by decide
 
@@ -184,13 +137,81 @@ one-element section key containing `.` does not come back as such -/
 theorem dotted_section_reads_as_subsection :
     parseHeader [91, 97, 46, 98, 93, 10] = .ok (([97], some [98]), []) := by decide
 
-/-! ## 3. the multi-valued dictionary: `set`/`add`/`remove` refine the association-list spec -/
+/-! ## 3. whole files: `ConfigFile.from_file(write_to_file(cfg)) == cfg` -/
+
+/-- The statement the property makes about whole configurations, in full (every configuration whose
+names are in the reader's grammar and whose sections are distinct).  FALSE for the code as it stands:
+`valueRoundtripStatement_false` and `headerRoundtripStatement_false` are instances. -/
+def fileRoundtripStatement : Prop :=
+  ∀ cfg : Cfg, (cfg.all fun e => checkSectionName e.1.1 && e.2.all fun kv => wfKey kv.1) = true →
+    distinctSections cfg = true → ∀ data, writeFile cfg = .ok data → readFile data = .ok cfg
+
+/-- `[s] k = a;b` comes back as `k = a` -/
+theorem file_counterexample :
+    writeFile [(([115], none), [([107], [97, 59, 98])])] = .ok [91, 115, 93, 10, 9, 107, 32, 61, 32, 97, 59, 98, 10] ∧
+    readFile [91, 115, 93, 10, 9, 107, 32, 61, 32, 97, 59, 98, 10] = .ok [(([115], none), [([107], [97])])] := by
+  decide
+
+theorem fileRoundtripStatement_false : ¬ fileRoundtripStatement := by
+  intro h
+  have := h [(([115], none), [([107], [97, 59, 98])])] (by decide) (by decide) _ file_counterexample.1
+  rw [file_counterexample.2] at this
+  exact absurd this (by decide)
+
+/-- under `wfCfg` the writer does not raise -/
+theorem writeFile_total (cfg : Cfg) (h : wfCfg cfg = true) : ∃ data, writeFile cfg = .ok data := by
+  simp only [wfCfg, Bool.and_eq_true, List.all_eq_true] at h
+  have hs := h.1
+  clear h
+  induction cfg with
+  | nil => exact ⟨[], rfl⟩
+  | cons sd cfg ih =>
+    obtain ⟨r, hr⟩ := ih (fun e he => hs e (by simp [he]))
+    obtain ⟨⟨name, sub⟩, d⟩ := sd
+    have hsec := (hs ((name, sub), d) (by simp)).1
+    have hh : ∃ hd, writeHeader (name, sub) = .ok hd := by
+      cases sub with
+      | none => exact ⟨_, rfl⟩
+      | some sub =>
+        simp only [wfSection, wfSubsection, Bool.and_eq_true, Bool.not_eq_true'] at hsec
+        have : escapeSubsection sub = .ok (applyWrites Gen.Config.subsectionWrites sub) := by
+          unfold escapeSubsection; rw [hsec.2.1]; rfl
+        exact ⟨_, by simp only [writeHeader, this]; rfl⟩
+    obtain ⟨hd, hhd⟩ := hh
+    exact ⟨hd ++ writeEntries d ++ r, by simp only [writeFile, hhd, hr]⟩
+
+/-- **Whole-file round trip.** For every configuration `cfg` — an ordered list of sections, each with an
+ordered list of `(key, value)` entries, repeated keys allowed — such that `wfCfg cfg`:
+section names over `isalnum`/`-`/`.` (no `.` without subsection), subsections `wfSubsection`, keys
+non-empty over `isalnum`/`-`, values `wfValue`, sections pairwise different under `lower_key`
+(what `ConfigDict.set/add` maintain): `write_to_file` succeeds and `from_file` on its output returns
+exactly `cfg` — same sections in the same order with their original spelling, same keys, same values,
+every multi-valued key with all its values in their original order. -/
+theorem file_roundtrip_partial (cfg : Cfg) (h : wfCfg cfg = true) :
+    ∃ data, writeFile cfg = .ok data ∧ readFile data = .ok cfg := by
+  obtain ⟨data, hw⟩ := writeFile_total cfg h
+  refine ⟨data, hw, ?_⟩
+  simp only [wfCfg, Bool.and_eq_true, List.all_eq_true] at h
+  obtain ⟨s1, hs1⟩ := readLines_file cfg [] none true data hw (fun e he => h.1 e he) h.2
+    (fun e he => by cases he)
+  unfold readFile
+  rw [hs1]
+  simp
+
+/-- non-vacuity: two sections differing only in subsection case, a multi-valued key in three spellings,
+values with every special character -/
+example : wfCfg [(([82, 101], some [97, 32, 34, 92, 46, 93]),
+                    [([85, 114, 108], [32, 9, 34, 92, 35, 59, 10]), ([117, 114, 108], []), ([85, 82, 76], [97, 34, 98])]),
+                 (([114, 101], some [65, 32, 34, 92, 46, 93]), [([107], [35])]),
+                 (([99, 111, 114, 101], none), [])] = true := by decide
+
+/-! ## 4. the multi-valued dictionary: `set`/`add`/`remove` refine the association-list spec -/
 
 /-- `add` appends: multi-valued keys keep their order -/
 theorem getAll_add (d : Entries) (k v k' : Bytes) :
     entGetAll (entAdd d k v) k' = if sameKey k k' then entGetAll d k' ++ [v] else entGetAll d k' := by
   unfold entGetAll entAdd
-  by_cases h : sameKey k k' = true <;> simp [List.filter_append, List.filter_cons, h]
+  by_cases h : sameKey k k' = true <;> simp [List.filter_append, h]
 
 /-- `set` replaces every value of the key (case-insensitively) by the one new value, others untouched -/
 theorem getAll_set (d : Entries) (k v k' : Bytes) :
@@ -203,7 +224,7 @@ theorem getAll_set (d : Entries) (k v k' : Bytes) :
       intro e _
       simp only [sameKey, beq_iff_eq] at h ⊢
       simp [h]
-    simp [this, List.filter_cons, h]
+    simp [this, h]
   · have h' : sameKey k k' = false := by simpa using h
     simp only [List.filter_append, List.filter_filter, h', Bool.false_eq_true, if_false, List.map_append]
     have : d.filter (fun e => sameKey e.1 k' && !sameKey e.1 k) = d.filter (fun e => sameKey e.1 k') := by
@@ -218,7 +239,7 @@ theorem getAll_set (d : Entries) (k v k' : Bytes) :
           exfalso
           simp only [sameKey, beq_iff_eq] at h1 h2
           simp [sameKey, ← h1, ← h2] at h'
-    simp [this, List.filter_cons, h']
+    simp [this, h']
 
 /-- `remove` deletes every value of the key, others untouched -/
 theorem getAll_del (d d' : Entries) (k k' : Bytes) (h : entDel d k = .ok d') :
@@ -237,6 +258,25 @@ theorem getAll_del (d d' : Entries) (k k' : Bytes) (h : entDel d k = .ok d') :
       simp only [hk', Bool.false_eq_true, if_false] at this ⊢
       simpa [List.filter_append, List.filter_cons, hk'] using this
   · cases h
+
+/-- `ConfigDict.set`, `add` and `remove` keep the sections pairwise distinct under `lower_key`, so every
+configuration built through them from the empty one satisfies that hypothesis of `file_roundtrip_partial` -/
+theorem set_keeps_sections_distinct (cfg : Cfg) (sec : Section) (k v : Bytes) (h : distinctSections cfg = true) :
+    distinctSections (cfgSet cfg sec k v) = true :=
+  distinct_modify _ _ _ (distinct_setDefault cfg sec h)
+
+theorem add_keeps_sections_distinct (cfg : Cfg) (sec : Section) (k v : Bytes) (h : distinctSections cfg = true) :
+    distinctSections (cfgAdd cfg sec k v) = true :=
+  distinct_modify _ _ _ (distinct_setDefault cfg sec h)
+
+theorem remove_keeps_sections_distinct (cfg cfg' : Cfg) (sec : Section) (k : Bytes)
+    (h : distinctSections cfg = true) (hr : cfgRemove cfg sec k = .ok cfg') : distinctSections cfg' = true := by
+  unfold cfgRemove at hr
+  split at hr
+  · cases hr
+  · split at hr
+    · cases hr
+    · simp only [Except.ok.injEq] at hr; subst hr; exact distinct_modify _ _ _ h
 
 /-- `d[k]` is the last value stored -/
 theorem get_eq_last (d : Entries) (k : Bytes) : entGet d k = (entGetAll d k).getLast? := rfl
